@@ -13,6 +13,7 @@ import (
 	"os/exec"
 	"path/filepath"
 	"regexp"
+	"runtime/pprof"
 	"sort"
 	"strings"
 	"time"
@@ -114,6 +115,7 @@ var (
 	workers    = flag.Int("workers", 0, "worker count (0 = all cores)")
 	verbose    = flag.Bool("v", false, "verbose")
 	noDiff     = flag.Bool("nodiff", false, "skip differential validation")
+	cpuProf    = flag.String("cpuprofile", "", "write cpu profile")
 	paramFlag  = flag.String("params", "", "override params: k=v,k=v (single run)")
 )
 
@@ -134,6 +136,11 @@ type runner struct {
 func main() {
 	flag.Parse()
 	t0 := time.Now()
+	if *cpuProf != "" {
+		f, _ := os.Create(*cpuProf)
+		pprof.StartCPUProfile(f)
+		defer pprof.StopCPUProfile()
+	}
 	seed := int64(1)
 	if v := os.Getenv("VERIF_SEED"); v != "" {
 		fmt.Sscanf(v, "%d", &seed)
@@ -153,6 +160,9 @@ func main() {
 	defer os.RemoveAll(r.scratch)
 	code := r.run(t0)
 	os.RemoveAll(r.scratch)
+	if *cpuProf != "" {
+		pprof.StopCPUProfile()
+	}
 	os.Exit(code)
 }
 
